@@ -1,7 +1,10 @@
+-- Root of the `MM` library: models, proofs, property theorems, audits.
 import MM.Model.Basic
 import MM.Model.HeapDict
 import MM.Model.Search
+import MM.Model.Admit
 import MM.Model.Dates
 import MM.Model.Elig
 import MM.Model.Params
 import MM.Model.DiagCache
+import MM.Driver.Wire
